@@ -1,6 +1,7 @@
 package main
 
 import (
+	"encoding/binary"
 	"encoding/json"
 	"fmt"
 	"hash/fnv"
@@ -86,6 +87,7 @@ type Acc struct {
 	Nontrivial int64
 	Outcomes   map[uint64]struct{}
 	Extra      map[string]int64
+	Digests    []uint64 // outcome hashes in enumeration order (C07 conformance)
 }
 
 func newAcc() *Acc { return &Acc{Outcomes: map[uint64]struct{}{}, Extra: map[string]int64{}} }
@@ -193,13 +195,16 @@ func subsetsOf(ids []int) [][]int {
 // ---------------- driver ----------------
 
 type Prop struct {
-	ID     string
-	Scopes func(thorough bool) []Scope
+	ID         string
+	EvidenceID string // property id the evidence/violations are filed under (default ID)
+	Scopes     func(thorough bool) []Scope
 	// Judge examines one input under every (ids, cfg) of the scope.
 	Judge func(sc *Scope, rings [][]ref.P, acc *Acc) []Problem
 	Rule  string
 	// Pinned inputs (always run first)
 	Pinned []Case
+	// Finish, if set, replaces the default evidence writer (multi-stage checks)
+	Finish func(r *ev.Run, c *finalCov)
 	// Extras: additional non-lattice enumerations, sharded by (shardI, shardN)
 	Extras []func(r *ev.Run, shardI, shardN int) scopeReport
 }
@@ -226,6 +231,21 @@ type scopeReport struct {
 
 func (s scopeReport) rootFan() int { return s.RootFan }
 
+type finalCov struct {
+	States, Transitions, Calls, Nontrivial, Inputs int64
+	Outcomes, Pinned, Shards                       int
+	Exhaustive                                     bool
+	Reports                                        []scopeReport
+	Samples                                        []any
+}
+
+func (c *finalCov) Map(rule string) map[string]any {
+	return map[string]any{
+		"states": c.States, "transitions": c.Transitions + c.Calls, "samples": c.Samples, "evaluations": c.Calls, "distinct_nontrivial": c.Nontrivial,
+		"inputs": c.Inputs, "distinct_outcomes": c.Outcomes, "pinned_inputs_run": c.Pinned, "rule": rule, "exhaustive": c.Exhaustive, "scopes": c.Reports, "shards": c.Shards,
+	}
+}
+
 type shardData struct {
 	Reports  []scopeReport `json:"reports"`
 	Outcomes [][]uint64    `json:"outcomes"`
@@ -235,7 +255,11 @@ type shardData struct {
 
 func runProp(p *Prop) {
 	log.SetOutput(io.Discard)
-	r := ev.New(p.ID)
+	eid := p.ID
+	if p.EvidenceID != "" {
+		eid = p.EvidenceID
+	}
+	r := ev.New(eid)
 	if rp := os.Getenv("VERIF_REPLAY"); rp != "" {
 		replay(p, r, rp)
 		return
@@ -305,6 +329,13 @@ func runProp(p *Prop) {
 		hs := make([]uint64, 0, len(acc.Outcomes))
 		for k := range acc.Outcomes {
 			hs = append(hs, k)
+		}
+		if len(acc.Digests) > 0 {
+			hb := make([]byte, 8*len(acc.Digests))
+			for i, h := range acc.Digests {
+				binary.LittleEndian.PutUint64(hb[8*i:], h)
+			}
+			_ = os.WriteFile(filepath.Join(os.Getenv("VERIF_WORK"), fmt.Sprintf("digest-%s-%s-%d.bin", p.ID, sc.Name, r.ShardI)), hb, 0o644)
 		}
 		sd.Reports = append(sd.Reports, rep)
 		sd.Outcomes = append(sd.Outcomes, hs)
@@ -397,6 +428,14 @@ func parent(p *Prop, r *ev.Run) {
 		samples = append(samples, "no input reached the sampling stride")
 	}
 	r.Assumptions = append(r.Assumptions, "reference models of engine/ref (exact integer arithmetic) are the trusted base", "Go toolchain; the harness executes the real snap/pointindex code built from /repo's working tree")
+	if so := os.Getenv("VERIF_STAGE_OUT"); so != "" {
+		fc := &finalCov{States: tStates, Transitions: tTrans, Calls: tCalls, Nontrivial: tNon, Inputs: tInputs, Outcomes: allOutcomes, Pinned: pinned, Exhaustive: exhaustive, Reports: reports, Samples: samples, Shards: n}
+		r.FinishStage(so, fc.Map(p.Rule))
+	}
+	if p.Finish != nil {
+		p.Finish(r, &finalCov{States: tStates, Transitions: tTrans, Calls: tCalls, Nontrivial: tNon, Inputs: tInputs, Outcomes: allOutcomes, Pinned: pinned, Exhaustive: exhaustive, Reports: reports, Samples: samples, Shards: n})
+		return
+	}
 	r.Finish(map[string]any{
 		"states":                        tStates,
 		"transitions":                   tTrans + tCalls,
